@@ -195,6 +195,39 @@ func LeanBatch(mode []string, lines []string) ([]string, error) {
 	return res, nil
 }
 
+// ValidateHistories pipes every distinct event history (each ending in its own terminator line) to
+// the Lean driver in the given mode and reports every history the model rejects as a
+// model/implementation disagreement with the schedule that produced it as replay.
+func ValidateHistories(res *Result, prop, mode, sig, model string, hists map[string]func() map[string]any) error {
+	if len(hists) == 0 {
+		return nil
+	}
+	keys := SortedKeys(hists)
+	cmd := exec.Command(LeanDriver(), mode)
+	cmd.Stdin = strings.NewReader(strings.Join(keys, "\n") + "\n")
+	cmd.Stderr = os.Stderr
+	out, err := cmd.Output()
+	if err != nil {
+		return fmt.Errorf("lean driver %s: %w", mode, err)
+	}
+	lines := strings.Split(strings.TrimRight(string(out), "\n"), "\n")
+	if len(lines) != len(keys) {
+		return fmt.Errorf("lean driver %s: %d histories in, %d answers out", mode, len(keys), len(lines))
+	}
+	for i, k := range keys {
+		if lines[i] == "ok" {
+			continue
+		}
+		rp := hists[k]()
+		rp["history"] = strings.Split(k, "\n")
+		rp["model"] = lines[i]
+		rp["model_agrees"] = false
+		res.Find(Finding{Kind: "disagreement", Property: prop, Signature: sig,
+			What: "the events of this schedule are not a run of " + model + ": " + lines[i], Replay: rp})
+	}
+	return nil
+}
+
 // LeanProc is a long-running driver process spoken to in lockstep (one line in, one line out).
 type LeanProc struct {
 	cmd *exec.Cmd
